@@ -246,10 +246,10 @@ def execute(cfgs, ops, observe):
     return outs, fin, touch
 
 
-def solo_in_fresh_interpreter(cfgs, proj, i):
+def solo_in_fresh_interpreter(cfgs, proj, i, wait=True):
     """outputs (as sha256 digests) of instance i's own operations run alone in a NEW Python process: nothing the library may
-    have cached or kept from other instances of this process can be shared"""
-    import hashlib
+    have cached or kept from other instances of this process can be shared.  wait=False: returns the started process (it runs
+    while the caller goes on; the digests are fetched with solo_collect)"""
     import subprocess
     import sys
     code = ("import sys, json, hashlib, numpy\n"
@@ -259,11 +259,19 @@ def solo_in_fresh_interpreter(cfgs, proj, i):
             "outs, _, _ = c06.execute(cfgs, proj, observe=False)\n"
             "print(json.dumps([hashlib.sha256(numpy.ascontiguousarray(a).tobytes()).hexdigest() for a in outs.get(i, [])]))\n"
             % ([common.REPO, common.VERIF],))
-    p = subprocess.run([sys.executable, "-W", "ignore", "-c", code], input=json.dumps([cfgs, proj, i]), capture_output=True,
-                       text=True, timeout=600, env=dict(os.environ, PYTHONPATH=common.REPO + ":" + common.VERIF))
-    lines = [l for l in p.stdout.splitlines() if l.startswith("[")]
+    p = subprocess.Popen([sys.executable, "-W", "ignore", "-c", code], stdin=subprocess.PIPE, stdout=subprocess.PIPE, stderr=subprocess.PIPE,
+                         text=True, env=dict(os.environ, PYTHONPATH=common.REPO + ":" + common.VERIF))
+    p.stdin.write(json.dumps([cfgs, proj, i]))
+    p.stdin.close()
+    p.stdin = None
+    return solo_collect(p) if wait else p
+
+
+def solo_collect(p):
+    out, err = p.communicate(timeout=600)
+    lines = [l for l in out.splitlines() if l.startswith("[")]
     if p.returncode != 0 or not lines:
-        raise RuntimeError("fresh-interpreter replay failed: " + p.stderr[-500:])
+        raise RuntimeError("fresh-interpreter replay failed: " + err[-500:])
     return json.loads(lines[-1])
 
 
@@ -541,6 +549,479 @@ def unseeded_ensemble(chk, ep, par, n, n_ctor):
                   "constructions": n_ctor if ep.startswith("infinite") else None})
 
 
+# ---------------------------------------------------------------------------------------------------------------------
+# round 5 (generator audit): JOB BATTERIES.  A job is one seeded use of an entry point, described by plain JSON so that it can be
+# run in this process and in a new one: entry point, parameter values, the TYPE the parameters are passed in, the way the entry
+# point is reached (module / package alias, keyword / positional seed, defaults, FFT object), the seed value and form, and the
+# number of rows added.  A battery is run twice: LIVE in this process (jobs started in index order, all infinite screens of the
+# battery alive at once, their add_row calls randomly interleaved with each other, with the finite calls and with unrelated
+# activity; the global generators compared before/after every operation) and, each job on its own, in ANOTHER order (one-argument
+# twins first, reversed) in a fresh interpreter.  Every job must give the same bits both times: state the library keeps between calls (a memo keyed without one
+# argument or with a rounded one, a class-level buffer or pool, a fallback on a global generator) is filled by different
+# neighbours in the two runs.
+R5_ENTRY = {"finite:plain": "ft_phase_screen", "finite:sh": "ft_sh_phase_screen",
+            "infinite:vk": "PhaseScreenVonKarman", "infinite:fried": "PhaseScreenKolmogorov"}
+R5_FLOATS = {"finite": ("r0", "delta", "L0", "l0"), "infinite": ("px", "r0", "L0")}
+# one argument far from the others (all run on the unchanged tree: finite results, no exception; the infinite screens keep to
+# L0 / pixel <= 1e4 where the covariance matrix can still be factorised)
+R5_EXTREME = {"finite": {"r0": [1e-3, 5.], "delta": [1e-3, 1., 10.], "L0": [1e3, 1e6, 1e9], "l0": [1e-10, 1e-6, 1.]},
+              "infinite": {"r0": [0.01, 2.], "px": [0.01, 0.5], "L0": [1., 100.]}}
+
+
+def f32(v):
+    """the nearest single-precision value, as a Python float: the same VALUE can then be passed as float, numpy.float64 and numpy.float32"""
+    return float(numpy.float32(v))
+
+
+def typed(v, t, integer=False):
+    """the value v (an integer, or a float that single precision represents exactly) held as the type class t"""
+    if t == "np64":
+        return numpy.int64(v) if integer else numpy.float64(v)
+    if t == "np32":
+        return numpy.int32(v) if integer else numpy.float32(v)
+    if t == "small":
+        return (numpy.uint8(v) if v < 256 else numpy.uint16(v)) if integer else numpy.float32(v)
+    if t == "0d":
+        return numpy.array(int(v) if integer else float(v))
+    if t == "int" and not integer and float(v) == int(v):
+        return int(v)                                   # an integer-valued length (L0 = 20) written without the decimal point
+    return int(v) if integer else float(v)
+
+
+def r5_seed(job):
+    return None if job["seed"] is None else present(int(job["seed"]), job.get("form", "int"))
+
+
+def r5_finite(job):
+    import aotools
+    from aotools.turbulence import phasescreen
+    par, t, call = job["par"], job.get("ptype", "py"), job.get("call", "kw")
+    f = getattr({"pkg": aotools, "turb": aotools.turbulence}.get(call, phasescreen), R5_ENTRY[job["ep"]])
+    args = [typed(par["r0"], t), typed(par["N"], t, True), typed(par["delta"], t), typed(par["L0"], t), typed(par["l0"], t)]
+    if call == "pos":
+        return numpy.array(f(*(args + [None, r5_seed(job)])), copy=True)
+    if call == "fft":
+        return numpy.array(f(*args, FFT=numpy.fft.ifft2, seed=r5_seed(job)), copy=True)
+    return numpy.array(f(*args, seed=r5_seed(job)), copy=True)
+
+
+def r5_create(job):
+    import aotools
+    from aotools.turbulence import infinitephasescreen
+    par, t, call = job["par"], job.get("ptype", "py"), job.get("call", "kw")
+    cls = getattr({"pkg": aotools, "turb": aotools.turbulence}.get(call, infinitephasescreen), R5_ENTRY[job["ep"]])
+    args = [typed(par["nx"], t, True), typed(par["px"], t), typed(par["r0"], t), typed(par["L0"], t)]
+    kw, extra = ("n_columns", par["ncol"]) if job["ep"] == "infinite:vk" else ("stencil_length_factor", par["slf"])
+    if call == "pos":
+        return cls(*(args + [r5_seed(job), extra]))
+    if call == "default":
+        return cls(*args, random_seed=r5_seed(job))
+    return cls(*args, random_seed=r5_seed(job), **{kw: extra})
+
+
+def r5_digest(*arrays):
+    import hashlib
+    h = hashlib.sha256()
+    for a in arrays:
+        a = numpy.ascontiguousarray(a)
+        h.update(str((a.shape, a.dtype.str)).encode())
+        h.update(a.tobytes())
+    return h.hexdigest()
+
+
+def r5_step(s):
+    """one add_row: what it returns and what .scrn shows afterwards"""
+    r = s.add_row()
+    return r5_digest(numpy.array(r, copy=True), numpy.array(s.scrn, copy=True))
+
+
+def r5_sequential(jobs, order):
+    """every job run to its end, one after the other in the given order; returns {job index: digests | {'error': ...}}"""
+    res = {}
+    for j in order:
+        job = jobs[j]
+        try:
+            if job["ep"].startswith("finite"):
+                res[j] = [r5_digest(r5_finite(job))]
+            else:
+                s = r5_create(job)
+                res[j] = [r5_digest(numpy.array(s.scrn, copy=True))] + [r5_step(s) for _ in range(job.get("rows", 0))]
+        except Exception as ex:
+            res[j] = {"error": "%s: %s" % (type(ex).__name__, ex), "type": type(ex).__name__}
+    return res
+
+
+def r5_live(jobs, rng, touched):
+    """jobs are STARTED in index order (a finite job is one call; an infinite one a construction) but the add_row calls of all
+    infinite screens started so far are randomly interleaved with the starts, with each other and with unrelated activity / global
+    re-seeding.  `touched` receives the indices of the seeded jobs during one of whose operations a global generator changed state"""
+    res, inst, left = {}, {}, {}
+    nxt, n = 0, 0
+    while nxt < len(jobs) or left:
+        n += 1
+        if rng.random() < 0.15:
+            perturb(rng, n)
+        start = nxt < len(jobs) and (not left or rng.random() < 0.5)     # (starts outpace the rows: in the end most screens of the battery are alive)
+        j = nxt if start else rng.choice(sorted(left))
+        job = jobs[j]
+        g0 = global_state()
+        try:
+            if not start:
+                res[j].append(r5_step(inst[j]))
+                left[j] -= 1
+                if not left[j]:
+                    del left[j], inst[j]
+            elif job["ep"].startswith("finite"):
+                res[j] = [r5_digest(r5_finite(job))]
+            else:
+                inst[j] = r5_create(job)
+                res[j] = [r5_digest(numpy.array(inst[j].scrn, copy=True))]
+                if job.get("rows", 0):
+                    left[j] = job["rows"]
+        except Exception as ex:
+            res[j] = {"error": "%s: %s" % (type(ex).__name__, ex), "type": type(ex).__name__}
+            left.pop(j, None)
+        nxt += 1 if start else 0
+        if job["seed"] is not None and j not in touched and global_state() != g0:
+            touched.append(j)
+    return res
+
+
+def r5_fresh_start(jobs, order):
+    """start a NEW interpreter that runs the battery sequentially in `order`"""
+    import subprocess
+    import sys
+    code = ("import sys, json, numpy\n"
+            "sys.path[:0] = %r\n"
+            "from harness.props import c06\n"
+            "jobs, order = json.loads(sys.stdin.read())\n"
+            "numpy.random.seed(97)\n"
+            "res = c06.r5_sequential(jobs, order)\n"
+            "print('R5' + json.dumps({str(k): v for k, v in res.items()}))\n" % ([common.REPO, common.VERIF],))
+    p = subprocess.Popen([sys.executable, "-W", "ignore", "-c", code], stdin=subprocess.PIPE, stdout=subprocess.PIPE, stderr=subprocess.PIPE,
+                         text=True, env=dict(os.environ, PYTHONPATH=common.REPO + ":" + common.VERIF))
+    p.stdin.write(json.dumps([jobs, order]))
+    p.stdin.close()
+    p.stdin = None
+    return p
+
+
+def r5_fresh_collect(p):
+    out, err = p.communicate(timeout=3600)
+    lines = [l for l in out.splitlines() if l.startswith("R5")]
+    if p.returncode != 0 or not lines:
+        raise RuntimeError("fresh-interpreter battery failed: " + err[-500:])
+    return {int(k): v for k, v in json.loads(lines[-1][2:]).items()}
+
+
+def r5_seed_value(rng):
+    """a seed value and a form to hold it in (all sizes: small, 0, beyond 2^32, 2^53, 2^64)"""
+    v = rng.choice([0, rng.randint(1, 1000), rng.randint(1, 1000), 2 ** 32 + rng.randint(0, 99), 2 ** 53 + rng.randint(0, 99),
+                    2 ** 63 + rng.randint(0, 99), 2 ** 100 + rng.randint(0, 99)])
+    return v, rng.choice([f for f in seed_forms(v) if f not in ("generator", "bool", "uint8")])
+
+
+def r5_battery(rng, quick, huge=False):
+    """the jobs of one battery (list of dicts).  Fields beyond the call itself: tag (input class, part of the failure keys), same_as
+    (index of a job whose screens this one must reproduce bit for bit: the same values held as other types / reached another way),
+    differs_from (index of a job with another seed: the screens must differ).  Quick tier: a random part of the classes per entry
+    point (every class is reached over a few seeds); thorough: all of them"""
+    jobs = []
+
+    def add(ep, par, seed, tag, form="int", **kw):
+        jobs.append(dict({"ep": ep, "par": dict(par), "seed": None if seed is None else str(seed), "form": form, "tag": tag}, **kw))
+        return len(jobs) - 1
+
+    def some(xs, k):
+        return rng.sample(list(xs), k) if quick else list(xs)
+
+    for ep in ("infinite:vk", "finite:plain", "infinite:fried", "finite:sh"):      # finite calls fall between the rows of live screens
+        fin = ep.startswith("finite")
+        floats = R5_FLOATS["finite" if fin else "infinite"]
+        # parameter VALUES that single precision represents exactly (so that one value can be passed in several types)
+        if fin:
+            par = {"N": rng.choice([6, 8, 9, 12, 16]), "r0": f32(rng.choice([0.1, 0.15, 0.3])), "delta": f32(rng.choice([0.02, 0.05, 0.1])),
+                   "L0": rng.choice([5., 20., 100.]), "l0": f32(rng.choice([0.001, 0.01]))}
+            rows = 0
+        else:
+            par = {"nx": rng.choice([5, 6, 8, 9]), "px": f32(rng.choice([0.05, 0.1])), "r0": f32(rng.choice([0.1, 0.16])),
+                   "L0": rng.choice([10., 25.]), "ncol": 2, "slf": 4}
+            rows = rng.randint(3, 2 * par["nx"] + 2)
+        seed, form = r5_seed_value(rng)
+        base = add(ep, par, seed, "base", form, rows=rows)
+        add(ep, par, seed + 1, "base", rows=rows, differs_from=base)
+        # twins: ONE argument differs, by a relative 2^-30 (same single-precision value, same 8 printed digits) or by a factor
+        for fld in floats:
+            add(ep, dict(par, **{fld: par[fld] * (1 + 2. ** -30)}), seed, "twin-near:" + fld, form, rows=rows)
+        for fld in rng.sample(floats, 2 if fin or not quick else 1):
+            add(ep, dict(par, **{fld: par[fld] * rng.choice([0.5, 1.5, 2.])}), seed, "twin-far:" + fld, form, rows=rows)
+        if fin:
+            add(ep, dict(par, N=par["N"] + rng.choice([1, 2])), seed, "twin:N", form)
+        else:
+            for kind in some(["nx", "stencil", "class"], 1):
+                if kind == "nx":
+                    add(ep, dict(par, nx=par["nx"] + rng.choice([1, 2, 8])), seed, "twin:nx", form, rows=rows)
+                elif kind == "stencil":
+                    add(ep, dict(par, ncol=rng.choice([1, 3, 4]), slf=rng.choice([1, 2, 3, 5])), seed, "twin:stencil", form, rows=rows)
+                else:
+                    other = "infinite:fried" if ep == "infinite:vk" else "infinite:vk"
+                    grid = par["nx"] if ep == "infinite:vk" else next(2 ** k + 1 for k in range(8) if 2 ** k + 1 >= par["nx"])
+                    add(other, dict(par, nx=grid, slf=1), seed, "twin:class", form, rows=rows)       # the other class on the same grid
+        # the smallest sizes; one argument at an extreme (but physical) magnitude
+        add(ep, dict(par, **({"N": rng.choice([2, 3])} if fin else {"nx": rng.choice([2, 3]), "slf": rng.choice([1, 4])})), seed, "tiny", form,
+            rows=0 if fin else 5)
+        for fld in rng.sample(floats, 2 if fin else 1):
+            v = rng.choice(R5_EXTREME["finite" if fin else "infinite"][fld])
+            add(ep, dict(par, **{fld: v}), seed, "extreme:" + fld, form, rows=rows)
+        # the same values held as other types; the same entry point reached another way
+        for t in (["np64", "np32"] + [rng.choice(["small", "0d", "int"])]) if fin else some(["np64", "np32", "int"], 1):
+            # the finite screens convert their arguments to plain Python numbers first: every type gives the screen of the
+            # plain call.  The infinite classes keep what they are given: compared with itself only (both runs)
+            add(ep, par, seed, "typed:" + t, form, rows=rows, ptype=t, **({"same_as": base} if fin else {}))
+        for c in some(["pos", "pkg", "turb", "fft" if fin else "default"], 4 if fin else 2):
+            add(ep, par, seed, "call:" + c, form, rows=rows, call=c, **({} if c in ("fft", "default") else {"same_as": base}))
+        # sizes beyond every size the histories use (a second code path chosen by size would start somewhere)
+        if fin:
+            sizes = [rng.choice([64, 81, 100, 127]), rng.choice([128, 130, 255, 256, 257])] + ([] if quick else [rng.choice([384, 512, 513]), 1024])
+        elif ep == "infinite:vk":
+            sizes = [rng.choice([31, 32, 33, 40, 64])] + ([] if quick else [rng.choice([65, 96, 100]), 128])
+        else:
+            sizes = [rng.choice([17, 18, 30, 33])] + ([] if quick else [rng.choice([34, 60, 65])])
+        if huge:                                        # (thorough tier, one battery) 2^22 / 2^16 / 2^14 elements
+            sizes.append({"finite:plain": 2048, "finite:sh": 2048, "infinite:vk": 256, "infinite:fried": 129}[ep])
+        for n in sizes:
+            s2, f2 = r5_seed_value(rng)
+            big = dict(par, **({"N": n} if fin else {"nx": n, "slf": rng.choice([2, 4])}))
+            b = add(ep, big, s2, "large", f2, rows=0 if fin else n + 3)
+            if fin or not quick:
+                add(ep, big, s2 + 1, "large", rows=0 if fin else 2, differs_from=b)
+        # more rows than any block / buffer / period is plausibly long
+        if not fin:
+            s3, f3 = r5_seed_value(rng)
+            add(ep, dict(par, nx=rng.choice([4, 5, 6])), s3, "long-rows", f3, rows=rng.choice([150, 260, 300]) if quick else rng.choice([1100, 2100, 4200]))
+    return jobs
+
+
+def r5_run_battery(chk, jobs, label):
+    rng = chk.rng
+    n = len(jobs)
+    # the fresh interpreter starts the one-argument twins BEFORE every job with the base parameters (here they come after the base
+    # job), everything in reversed order: whatever a twin would inherit here from the base job, there the base job inherits from it
+    order = sorted(range(n), key=lambda j: (not jobs[j]["tag"].startswith("twin"), -j))
+    fresh = r5_fresh_start(jobs, order)                           # runs while this process does its own pass
+    for job in jobs:
+        chk.count("r5:%s:%s" % (job["ep"], job["tag"].split(":")[0]))
+        chk.count("r5:seed-form:" + job["form"])
+    touched = []
+    numpy.random.seed(rng.randint(0, 10 ** 6))
+    pyrandom.seed(rng.randint(0, 10 ** 6))
+    d1 = r5_live(jobs, rng, touched)
+    d2 = r5_fresh_collect(fresh)
+    failed = set()
+
+    def fail(key, what, j, **extra):
+        if key not in failed:
+            failed.add(key)
+            chk.fail(key, what, dict({"battery": label, "job_index": j, "job": jobs[j]}, **extra))
+
+    for j, job in enumerate(jobs):
+        ep, tag = job["ep"], job["tag"]
+        what = "%s [%s, seed %s as %s, parameters %s as %s, call %s]" % (ep, tag, job["seed"], job["form"], job["par"],
+                                                                          job.get("ptype", "py"), job.get("call", "kw"))
+        bad = [(w, d[j]) for w, d in (("live, this process", d1), ("fresh interpreter", d2)) if isinstance(d.get(j), dict)]
+        if bad:
+            fail("raises:r5:%s:%s:%s" % (ep, tag, bad[0][1]["type"]), "%s raised %s (%s)" % (what, bad[0][1]["error"], bad[0][0]), j)
+            continue
+        if j in touched:
+            fail("global-touched:r5:%s:%s" % (ep, tag), "%s changed the state of NumPy's or the stdlib's GLOBAL generator" % what, j)
+        if d1[j] != d2[j]:
+            k = next((k for k, (x, y) in enumerate(zip(d1[j], d2[j])) if x != y), min(len(d1[j]), len(d2[j])))
+            fail("isolation:r5:%s:%s" % (ep, tag), "%s gave different screens (a) in this process, started after the jobs before it in the battery "
+                 "and interleaved with the other live screens and calls, and (b) on its own in a fresh interpreter that runs the battery in "
+                 "reversed order: first difference at output %d of %d (0 = initial / finite screen, k = after the k-th add_row)"
+                 % (what, k, len(d1[j])), j, jobs=jobs)
+        k = job.get("same_as")
+        if k is not None and not isinstance(d1.get(k), dict) and d1[j] != d1[k]:
+            fail("repro:r5:%s:%s" % (ep, tag), "%s differs from the same seed and parameter values given as plain Python numbers through the "
+                 "module-level name with a keyword seed (job %d)" % (what, k), j, other=jobs[k])
+        k = job.get("differs_from")
+        if k is not None and not isinstance(d1.get(k), dict) and d1[j][0] == d1[k][0]:
+            fail("seeds-differ:r5:%s:%s" % (ep, tag), "%s is bit-identical to the screen of seed %s" % (what, jobs[k]["seed"]), j, other=jobs[k])
+    return n
+
+
+def r5_unseeded_large(chk, quick):
+    """unseeded uses at sizes beyond those of the histories: three uses, NumPy's and the stdlib's global generators put into the SAME
+    state before each, the third one right after a seeded use of the same entry point: all screens pairwise different"""
+    rng = chk.rng
+    for ep in ENTRY_POINTS:
+        par = ep_params(rng, ep)
+        if ep.startswith("finite"):
+            par["N"] = rng.choice([100, 128, 256] if quick else [128, 256, 512, 1024])
+        else:
+            par["nx"] = rng.choice([20, 32, 33] if quick else [33, 64, 65, 100])
+        gs = rng.randint(0, 2 ** 32 - 1)
+        outs = []
+        try:
+            for k in range(3):
+                numpy.random.seed(gs)
+                pyrandom.seed(gs)
+                if k == 2:
+                    ep_outputs(ep, par, 5, rows=0)
+                outs.append(ep_outputs(ep, par, None, rows=1))
+        except Exception as ex:
+            chk.fail("raises:r5:%s:unseeded-large:%s" % (ep, type(ex).__name__), "unseeded %s raised %r" % (ep, ex), {"entry": ep, "params": par})
+            continue
+        chk.count("r5:unseeded-large:" + ep)
+        chk.case(("r5-unseeded-large", ep, json.dumps(par, sort_keys=True)))
+        if any(outs[x][n].tobytes() == outs[y][n].tobytes() for x in range(3) for y in range(x + 1, 3) for n in range(len(outs[0]))):
+            chk.fail("unseeded-equal:r5:large:%s" % ep, "two unseeded %s screens with the same parameters are bit-identical (global generators in "
+                     "the same state before each)" % ep, {"entry": ep, "params": par, "global_seed": gs})
+
+
+def r5_seed_object_reuse(chk, quick):
+    """the caller keeps ONE seed object (SeedSequence, list, list of words, array) and passes it to two calls: same seed, same screens;
+    and the same screens as the integer it stands for"""
+    rng = chk.rng
+    for ep in ENTRY_POINTS:
+        for form in (rng.sample(["seedseq", "list", "words", "array"], 2) if quick and ep.startswith("infinite")
+                     else ["seedseq", "list", "words", "array"]):
+            par = ep_params(rng, ep)
+            v = rng.choice([0, rng.randint(1, 10 ** 6), 2 ** 32 + rng.randint(0, 10 ** 6), 2 ** 63 + rng.randint(0, 10 ** 6)])
+            obj = present(v, form)
+            chk.count("r5:seed-object-reused:" + form)
+            chk.case(("r5-seed-object-reuse", ep, form, str(v), json.dumps(par, sort_keys=True)))
+            rep = {"entry": ep, "params": par, "seed": str(v), "form": form}
+            try:
+                a = ep_outputs(ep, par, obj)
+                perturb(rng, v % 7)
+                b = ep_outputs(ep, par, obj)
+                c = ep_outputs(ep, par, int(v)) if numpy_stream(present(v, form)) == numpy_stream(int(v)) else a
+            except Exception as ex:
+                chk.fail("raises:r5:%s:seed-object-reused:%s" % (ep, type(ex).__name__), "%s raised %r for a %s seed" % (ep, ex, form), rep)
+                continue
+            if any(x.tobytes() != y.tobytes() for x, y in zip(a, b)):
+                chk.fail("repro:r5:%s:seed-object-reused:%s" % (ep, form), "%s: ONE %s seed object (seed %d) passed to two calls gave different "
+                         "screens" % (ep, form, v), rep)
+            elif any(x.tobytes() != y.tobytes() for x, y in zip(a, c)):
+                chk.fail("repro:r5:%s:seed-object-reused:%s" % (ep, form), "%s: the %s seed object of %d gave other screens than the integer seed %d"
+                         % (ep, form, v, v), rep)
+
+
+def r5_caller_mutation(chk, quick):
+    """the caller changes a returned screen IN PLACE (scrn *= wavelength / 2 pi; scrn[:] = 0) and then asks for the same seed and
+    parameters again (finite: the same call; infinite: a new instance): the new screen is the one of the first call"""
+    rng = chk.rng
+    for ep in ENTRY_POINTS:
+        par = ep_params(rng, ep)
+        v = rng.choice([0, rng.randint(1, 10 ** 6), 2 ** 40 + rng.randint(0, 99)])
+        chk.count("r5:caller-mutation:" + ep)
+        chk.case(("r5-caller-mutation", ep, str(v), json.dumps(par, sort_keys=True)))
+        rep = {"entry": ep, "params": par, "seed": str(v)}
+        try:
+            if ep.startswith("finite"):
+                f = R5_ENTRY[ep]
+                from aotools.turbulence import phasescreen
+                a = getattr(phasescreen, f)(par["r0"], par["N"], par["delta"], par["L0"], par["l0"], seed=v)
+                first = [numpy.array(a, copy=True)]
+                if a.flags.writeable:
+                    a *= 0.5
+                    a[0, :] = 7.
+                second = ep_outputs(ep, par, v)
+            else:
+                x = ep_make(ep, par, v)
+                a0 = x.scrn                                  # the caller keeps the initial screen it was given ...
+                first = [numpy.array(a0, copy=True)]
+                r = x.add_row()
+                first.append(numpy.array(x.scrn, copy=True))
+                for a in (a0, r, x.scrn):                    # ... and overwrites it, and the current one, afterwards
+                    if a.flags.writeable:
+                        a[...] = 0.
+                second = ep_outputs(ep, par, v, rows=1)
+        except Exception as ex:
+            chk.fail("raises:r5:%s:caller-mutation:%s" % (ep, type(ex).__name__), "%s raised %r" % (ep, ex), rep)
+            continue
+        if any(p.shape != q.shape or p.tobytes() != q.tobytes() for p, q in zip(first, second)):
+            chk.fail("repro:r5:%s:caller-mutation" % ep, "%s: after the caller changed the returned screen in place, the same seed %d and parameters "
+                     "gave another screen than the first time" % (ep, v), rep)
+
+
+def r5_forked_unseeded(chk, quick):
+    """schedules with worker processes: three children forked from this process (which has used every entry point) each make
+    unseeded screens: plain and sub-harmonic finite screens and an unseeded make_initial_screen() of infinite screens built
+    (unseeded) by the parent.  The screens of different children must differ.  (The children only run code that stays in the
+    calling thread; trouble with the fork itself is recorded as a note, never as a violation.)"""
+    import select
+    import time
+    rng = chk.rng
+    pars = {ep: ep_params(rng, ep) for ep in ENTRY_POINTS}
+    try:
+        inst = {ep: ep_make(ep, pars[ep], None) for ep in ENTRY_POINTS if ep.startswith("infinite")}
+        for ep in ENTRY_POINTS:
+            if ep.startswith("finite"):
+                ep_outputs(ep, pars[ep], None)
+    except Exception as ex:
+        chk.fail("raises:r5:forked-unseeded:%s" % type(ex).__name__, "unseeded use raised %r" % (ex,), {"params": pars})
+        return
+    kids = []
+    for k in range(3):
+        r, w = os.pipe()
+        pid = os.fork()
+        if pid == 0:
+            try:
+                os.close(r)
+                out = {}
+                for ep in ENTRY_POINTS:
+                    if ep.startswith("finite"):
+                        out[ep] = r5_digest(ep_outputs(ep, pars[ep], None)[0])
+                    else:
+                        inst[ep].make_initial_screen()
+                        out[ep] = r5_digest(numpy.array(inst[ep].scrn, copy=True))
+                os.write(w, json.dumps(out).encode())
+            except BaseException as ex:
+                try:
+                    os.write(w, json.dumps({"error": repr(ex)}).encode())
+                except BaseException:
+                    pass
+            finally:
+                os._exit(0)
+        os.close(w)
+        kids.append((pid, r))
+    got = []
+    for pid, r in kids:
+        data, t_end = b"", time.time() + 60
+        while time.time() < t_end:
+            if select.select([r], [], [], 1.0)[0]:
+                chunk = os.read(r, 65536)
+                if not chunk:
+                    break
+                data += chunk
+        else:
+            try:
+                os.kill(pid, 9)
+            except OSError:
+                pass
+        os.close(r)
+        try:
+            os.waitpid(pid, 0)
+        except OSError:
+            pass
+        try:
+            got.append(json.loads(data.decode()))
+        except Exception:
+            got.append({"error": "no answer from the forked child"})
+    if any("error" in g for g in got):
+        chk.notes.append("C06 forked-unseeded: a forked child did not answer (%s); class skipped" % [g.get("error") for g in got if "error" in g][:1])
+        chk.count("r5:forked-unseeded:skipped")
+        return
+    for ep in ENTRY_POINTS:
+        chk.count("r5:forked-unseeded:" + ep)
+        chk.case(("r5-forked-unseeded", ep, json.dumps(pars[ep], sort_keys=True)))
+        if len({g[ep] for g in got}) < len(got):
+            chk.fail("unseeded-equal:r5:forked:%s" % ep, "unseeded %s screens made in different worker processes forked from one parent are "
+                     "bit-identical" % ep, {"entry": ep, "params": pars[ep], "children": len(got)})
+
+
 def model_line(cfgs, ops):
     toks = []
     for op in ops:
@@ -585,7 +1066,16 @@ def run(chk):
                 "flipped, each as Python int and in other forms (bool, NumPy integer scalars, one-element array, list, list of 32-bit words, "
                 "SeedSequence, private Generator), evaluated in random order with unrelated activity in between: seed objects that NumPy starts "
                 "in the same generator state must give bit-identical screens, all others different ones (all pairs); unseeded ensembles: 3000 / "
-                "1500 / 2000 / 2000 unseeded screens per entry point with equal parameters (10x in the thorough tier), all pairwise different")
+                "1500 / 2000 / 2000 unseeded screens per entry point with equal parameters (10x in the thorough tier), all pairwise different; "
+                "job batteries (round 5): per entry point a base job, the next seed, one-argument twins (relative 2^-30 / a factor; N / nx, stencil, "
+                "other class), the same values as numpy.float64 / float32 / integer / 0-d / small-integer types, package-level aliases, positional "
+                "seed, defaults, FFT object, large sizes (finite N 64..257, thorough ..1024; von Karman nx 31..64, thorough ..128 and 256; Fried nx 17..33, "
+                "thorough ..65 and 129; finite 2048 once; nx+3 rows), 150-300 (thorough 1100-4200) added rows; seeds of all size classes and forms; run live-interleaved in this "
+                "process (global generators compared around every operation) and in reversed order in a fresh interpreter: bit-identical; unseeded "
+                "uses at large sizes with the global generators in the same state differ; one SeedSequence / list / array seed OBJECT passed to "
+                "two calls gives the same screens; the smallest sizes (N, nx in 2, 3) and one argument at an extreme magnitude; a returned screen "
+                "overwritten in place by the caller does not change what the same seed gives next; unseeded screens made in three forked worker "
+                "processes differ")
     chk.assumptions = ["'different seeds give different screens' and 'unseeded calls differ from each other' are sampled, not proved "
                        "(PCG64 / SeedSequence injectivity, OS entropy)",
                        "which seed objects denote the same seed is taken from NumPy: those that numpy.random.default_rng starts in the same generator "
@@ -593,6 +1083,13 @@ def run(chk):
                        "a bit-identical pair among n unseeded screens is reported as a violation: with the 128 bits of OS entropy default_rng() takes, "
                        "its probability on correct code is below n^2 * 2^-129 (< 1e-29 for n = 30000)",
                        "numpy.random.default_rng(seed) / Generator.normal are deterministic functions of seed / state",
+                       "'same parameters' for the FINITE screens means the same values: r0, delta, L0, l0 given as float / numpy.float64 / numpy.float32 / "
+                       "0-d array / (integer-valued) int and N as int / NumPy integer give the screen of the plain Python numbers (the functions convert "
+                       "their arguments first); for the infinite classes a typed call is only compared with itself",
+                       "the NumPy / SciPy / numba kernels used by the library give the same bits in two interpreters on this machine (sizes up to "
+                       "2048^2 finite, 256 infinite); observed on the unchanged tree",
+                       "forked children of this process only run code that stays in the calling thread (finite screens, make_initial_screen); if a "
+                       "forked child does not answer the class is skipped with a note",
                        "the touch sets are observed through the instance's numpy Generator attribute (`_R`, or the single Generator found among "
                        "the instance attributes if it is renamed); if none can be found this is reported as broken correspondence, not as a violation",
                        "the Lean model has integer seeds only: an unseeded instance is modelled as seeded with a value nobody else uses, a private "
@@ -611,6 +1108,7 @@ def run(chk):
     n_hist = 20 if quick else 200
     lines, observed, cases = [], [], []
     fresh_budget = [4 if quick else 40]
+    fresh_pending = []
     observable = [True]
     for h in range(n_hist):
         cfgs, ops = gen_history(chk.rng, quick, force_twin=(h < 4), force_kind={1: "none", 2: "generator", 3: "seedseq", 5: "none"}.get(h % 8))
@@ -679,14 +1177,11 @@ def run(chk):
             i = cand[-1] if cand else None
             fresh_budget[0] -= 1 if cand else 0
             proj = [o for o in ops if o.get("i") == i and o["op"] in OWN_OPS]
-            dig = solo_in_fresh_interpreter(cfgs, proj, i) if cand else None
-            mine = [hashlib.sha256(numpy.ascontiguousarray(a).tobytes()).hexdigest() for a in outs.get(i, [])] if cand else None
             if cand:
+                # started now, compared after the last history (the new interpreters run while this process goes on)
                 chk.count("fresh-interpreter-replays")
-            if dig != mine:
-                chk.fail("isolation:fresh-process:%s" % cfgs[i]["variant"], "instance %d (%s, seed %d, r0 %g) produced different screens in this "
-                         "history than when run alone in a fresh interpreter" % (i, cfgs[i]["variant"], cfgs[i]["seed"], cfgs[i]["r0"]),
-                         {"configs": cfgs, "ops": ops, "instance": i})
+                mine = [hashlib.sha256(numpy.ascontiguousarray(a).tobytes()).hexdigest() for a in outs.get(i, [])]
+                fresh_pending.append((solo_in_fresh_interpreter(cfgs, proj, i, wait=False), mine, cfgs, ops, i))
         # reproductions: instances with identical configuration and identical own operation sequence
         for i in range(len(cfgs)):
             for j in range(i + 1, len(cfgs)):
@@ -735,6 +1230,11 @@ def run(chk):
             k2 = dict(k, seed=k["seed"] + 1)
             if finite_call(k2).tobytes() == val.tobytes():
                 chk.fail("seeds-differ:finite", "finite screens with seeds %d and %d are identical" % (k["seed"], k["seed"] + 1), {"call": k})
+    for proc, mine, cfgs, ops, i in fresh_pending:
+        if solo_collect(proc) != mine:
+            chk.fail("isolation:fresh-process:%s" % cfgs[i]["variant"], "instance %d (%s, seed %d, r0 %g) produced different screens in this "
+                     "history than when run alone in a fresh interpreter" % (i, cfgs[i]["variant"], cfgs[i]["seed"], cfgs[i]["r0"]),
+                     {"configs": cfgs, "ops": ops, "instance": i})
     # caller-shared Generator: the outputs are a function of the order of the operations on that generator alone
     for k in range(3 if quick else 30):
         plan = shared_generator_scenario(chk.rng, quick)
@@ -786,6 +1286,18 @@ def run(chk):
             unseeded_ensemble(chk, ep, par, nq if quick else nt, 25 if quick else 200)
         except Exception as ex:
             chk.fail("raises:unseeded-ensemble:%s:%s" % (ep, type(ex).__name__), "unseeded %s raised %r" % (ep, ex), {"entry": ep, "params": par})
+    # round 5: job batteries (sizes, row counts, argument types, aliases, one-argument twins) run in order, live-interleaved and in
+    # reversed order in a fresh interpreter; unseeded uses at large sizes; one seed object passed to two calls
+    for k in range(1 if quick else 4):
+        jobs = r5_battery(chk.rng, quick, huge=(not quick and k == 0))
+        chk.oracle_cases += 1
+        for j, job in enumerate(jobs):
+            chk.case(("r5-job", json.dumps(job, sort_keys=True)), sample=job if (k == 0 and job["tag"] == "large" and j % 2 == 0) else None)
+        r5_run_battery(chk, jobs, k)
+    r5_unseeded_large(chk, quick)
+    r5_seed_object_reuse(chk, quick)
+    r5_caller_mutation(chk, quick)
+    r5_forked_unseeded(chk, quick)
     # correspondence of the touch sets
     try:
         ans = common.run_driver(lines, "C06")
